@@ -87,6 +87,20 @@ func init() {
 		},
 	})
 	register(&propDef{
+		ID: "C17",
+		Explain: "Per option plugin, every emission site (Options.Update / UpdateOption / AddOption on resp) is an obligation: the option code is derived from the codec constructor / literal / plugin global and must be the code of the plugin's row in the frozen table (OPT.CODE-AGREE); the entitlement gate of the row must be true (three-valued, over the branch facts decided on the path) in every abstract state reaching the emission (OPT.GATE), and at every abstract exit an entitled client has received the option, with the specified stop flag and returned response (OPT.RETURNS); emissions are idempotent Updates or execute at most once per invocation (OPT.ONCE); the emitted value's canonical rendering mentions the plugin's configuration global (OPT.VALUE). The codec fact 'IsOptionRequested is true for an absent list' is re-derived; the ipv6only row therefore demands evidence that the list is present.",
+		Trusted: trustedBase,
+		Assume:  []string{"wire encoding of options (codec)", "value equality with the arguments beyond provenance is not decided"},
+		Run: func(c *Ctx) {
+			ruleOptions(c, "C17.")
+			c.R.Floor("C17.OPT.GATE", 15)
+			c.R.Floor("C17.OPT.CODE-AGREE", 15)
+			c.R.Floor("C17.OPT.ONCE", 15)
+			c.R.Floor("C17.OPT.VALUE", 15)
+			c.R.Floor("C17.OPT.RETURNS", 13)
+		},
+	})
+	register(&propDef{
 		ID: "C15",
 		Explain: "Decision-table comparison on the tail of HandleMsg4: in every abstract state reaching a send site the destination (address expression, port constant, link-level flag) equals the RFC 2131 §4.1 row selected by giaddr / NAK / ciaddr / broadcast flag, every row is realised (ADDR.CASCADE); the control message is the bound interface, else the receiving one, exactly for broadcast / link-local / L2 destinations and nil otherwise (ADDR.PIN); sendEthernet builds dst MAC = chaddr, dst IP = yiaddr, src IP = siaddr, UDP 67→68 on the looked-up interface (ADDR.L2); listenN either remembers its interface or enables per-packet interface information on every success path (ADDR.LISTENER); the control message is never dereferenced while nil (NILPATH on HandleMsg4).",
 		Trusted: trustedBase,
